@@ -227,7 +227,7 @@ def family_numbers():
             for pre, op in (('', '='), ('+', '>'), ('-', '<')):
                 want = '(%s (%s) %d)' % (op, field, v)
                 yield dict(op='compile', input='%s %s%d' % (kw, pre, v), expect=want, bad=(lambda g, want=want: g[0] == 'OK' and want not in g[1]))
-    for n in (1, 7, 4096, 2 ** 32 - 1):
+    for n in (0, 1, 7, 4096, 2 ** 32 - 1):
         yield dict(op='compile', input='-threads %d -true' % n, expect='scan call ends with %d))' % n,
                    bad=(lambda g, n=n: g[0] == 'OK' and ('\n        %d))' % n) not in g[1]))
 
